@@ -1,7 +1,7 @@
-\* serialised handler steps; the state graph is printed edge by edge and replayed on the real server
+\* MCShrex_replay_mix.cfg -- generated from checks/X_limits.py (job sh_replay_mix); run: tlc -config MCShrex_replay_mix.cfg MCShrexLimits.tla
 CONSTANTS
-  Peers = {1, 2, 3}
-  Protos = {1, 2}
+  Peers = {1, 2}
+  Protos = {1}
   Streams = {1, 2, 3}
   PeerIP <- MCPeerIP
   Need <- MCNeed
@@ -13,22 +13,22 @@ CONSTANTS
   IP4 = "none"
   Need1 = 4
   Need2 = 1
-  ProtoLim1 = 2
+  ProtoLim1 = 9
   ProtoLim2 = 3
-  ProtoPeerLim1 = 1
+  ProtoPeerLim1 = 9
   ProtoPeerLim2 = 2
-  SvcLim = 3
-  SvcPeerLim = 2
-  SvcMem = 5
-  SvcPeerMem = 4
+  SvcLim = 1
+  SvcPeerLim = 1
+  SvcMem = 99
+  SvcPeerMem = 99
   Burst = 2
   Rate = 1
   Grace = 1
   RateOn = TRUE
   Atomic = TRUE
   CloseOnLimit = TRUE
-  Hows = {"served", "failed", "panicked"}
   WatchTime = 0
+  Hows = {"served", "failed", "panicked"}
 INIT MCInit
 NEXT MCNextNoWatch
 VIEW ViewReplay
